@@ -29,6 +29,75 @@ var astTransforms = map[string]astTransform{
 	"early-return-to-else": earlyReturnToElse,
 	// return f(x) in a function with one result -> r0 := f(x); return r0
 	"return-via-temp": returnViaTemp,
+	// if a && b { S } (no else, no init) -> if a { if b { S } }
+	"split-and-conditions": splitAndConditions,
+	// if f(x) op y { ... } (a statement of a block, no init) -> c0tmp := f(x); if c0tmp op y { ... }
+	"hoist-call-from-condition": hoistCallFromCondition,
+}
+
+func splitAndConditions(fset *token.FileSet, f *ast.File) int {
+	n := 0
+	ast.Inspect(f, func(nd ast.Node) bool {
+		is, ok := nd.(*ast.IfStmt)
+		if !ok || is.Init != nil || is.Else != nil {
+			return true
+		}
+		be, ok := is.Cond.(*ast.BinaryExpr)
+		if !ok || be.Op != token.LAND {
+			return true
+		}
+		inner := &ast.IfStmt{Cond: be.Y, Body: is.Body}
+		is.Cond = be.X
+		is.Body = &ast.BlockStmt{List: []ast.Stmt{inner}}
+		n++
+		return true
+	})
+	return n
+}
+
+func hoistCallFromCondition(fset *token.FileSet, f *ast.File) int {
+	n := 0
+	var rewrite func(list []ast.Stmt) []ast.Stmt
+	rewrite = func(list []ast.Stmt) []ast.Stmt {
+		var out []ast.Stmt
+		for _, st := range list {
+			is, ok := st.(*ast.IfStmt)
+			if ok && is.Init == nil {
+				if be, ok := is.Cond.(*ast.BinaryExpr); ok {
+					switch be.Op {
+					case token.EQL, token.NEQ, token.LSS, token.LEQ, token.GTR, token.GEQ:
+						if ce, ok := be.X.(*ast.CallExpr); ok {
+							// not for type conversions spelled as calls of a parenthesised or composite type, nor builtins
+							if id, isId := ce.Fun.(*ast.Ident); !isId || (id.Name != "len" && id.Name != "cap" && id.Name != "new" && id.Name != "make") {
+								if _, isParen := ce.Fun.(*ast.ParenExpr); !isParen {
+									name := "c0tmp"
+									out = append(out, &ast.BlockStmt{List: []ast.Stmt{
+										&ast.AssignStmt{Lhs: []ast.Expr{ast.NewIdent(name)}, Tok: token.DEFINE, Rhs: []ast.Expr{ce}},
+										&ast.IfStmt{Cond: &ast.BinaryExpr{X: ast.NewIdent(name), Op: be.Op, Y: be.Y}, Body: is.Body, Else: is.Else},
+									}})
+									n++
+									continue
+								}
+							}
+						}
+					}
+				}
+			}
+			out = append(out, st)
+		}
+		return out
+	}
+	ast.Inspect(f, func(nd ast.Node) bool {
+		switch x := nd.(type) {
+		case *ast.BlockStmt:
+			// a block whose statements declare variables used later cannot have them wrapped: only the if itself is wrapped
+			x.List = rewrite(x.List)
+		case *ast.CaseClause:
+			x.Body = rewrite(x.Body)
+		}
+		return true
+	})
+	return n
 }
 
 func endsInReturn(b *ast.BlockStmt) bool {
